@@ -231,11 +231,21 @@ def part_b_receive(job):
     corner_bursts = [b for b in bursts if len(b) == 2 or b[-1] - b[0] in (2, 3)][:: 3]
     probe = corpus(gen)[3][1]
     n = 0
-    cases = [(b, False) for b in singles + corner_bursts] + [(b, True) for b in singles[::5]]
+    # 'after': the intact frame itself has been received (and delivered) just before its damaged copy arrives -
+    # whatever the client remembers about frames it has accepted must not stand in for checking this one
+    cases = [(b, False) for b in singles + corner_bursts] + [(b, True) for b in singles[::5]] + \
+            [(b, "after") for b in singles[-16:] + singles[:-16:7] + corner_bursts[-6:]]
     for bits, twice in cases:
         w = RxWorld(gen)
         bad = flip(frame, s, bits)
         t0 = w.net.live()[-1]
+        if twice == "after":
+            t0.peer_send(frame)
+            w.loop.settle()
+            if len(w.got) != 1:
+                return n, f"at{gen} {name}: the intact frame was not delivered ({len(w.got)} messages)"
+            w.got.clear()
+            twice = False
         if twice:
             # a second damaged frame is already waiting when the re-established connection opens
             orig = w.net.on_open
